@@ -51,6 +51,7 @@ type Stats struct {
 	Ops         map[string]int
 	ErrInjected map[string]int
 	ShortWrites int
+	FdReuses    int
 	Kills       int
 	ENOSPC      int
 }
@@ -59,7 +60,8 @@ type Stats struct {
 type FS struct {
 	root      *node
 	handles   map[int]*handle
-	nextFD    int
+	nextFD    int // descriptors are numbered from nextFD+1
+	everFD    map[int]bool
 	opIdx     int
 	Hook      func(op Op) Action
 	OnKill    func(gen int)
@@ -84,7 +86,7 @@ var Cur *FS
 
 // Reset creates a fresh disk
 func Reset() *FS {
-	Cur = &FS{root: &node{name: "/", dir: true, children: map[string]*node{}, mode: 0o755}, handles: map[int]*handle{}, nextFD: 1000}
+	Cur = &FS{root: &node{name: "/", dir: true, children: map[string]*node{}, mode: 0o755}, handles: map[int]*handle{}, nextFD: 1000, everFD: map[int]bool{}}
 	Cur.Stats.Ops = map[string]int{}
 	Cur.Stats.ErrInjected = map[string]int{}
 	return Cur
@@ -277,8 +279,15 @@ func (fs *FS) Open(path string, flags int, mode uint32) (int, error) {
 			n.data = nil
 		}
 	}
-	fs.nextFD++
-	fd := fs.nextFD
+	// lowest free descriptor, as the kernel does: a descriptor closed twice closes whatever was opened in between
+	fd := fs.nextFD + 1
+	for fs.handles[fd] != nil {
+		fd++
+	}
+	if fs.everFD[fd] {
+		fs.Stats.FdReuses++
+	}
+	fs.everFD[fd] = true
 	h := &handle{n: n, path: path, gen: simrt.CurrentGen(), wr: wr}
 	if flags&O_APPEND != 0 {
 		h.pos = len(n.data)
